@@ -348,8 +348,25 @@ func scanLevelUse(c *core.Ctx) []ob {
 					continue
 				}
 				id, ok := unparen(sel.X).(*ast.Ident)
-				if !ok || !inputs[info.Uses[id]] {
+				if !ok {
 					continue
+				}
+				if o := info.Uses[id]; !inputs[o] {
+					// a local working copy of an operand (the operand itself or its rescaled version) is no better a
+					// source for the level than the operand
+					v, isVar := o.(*types.Var)
+					if !isVar || v.IsField() || isOutParamName(v.Name()) || !isMetaCarrier(v.Type()) || v.Parent() == nil || v.Parent() == pk.Types.Scope() {
+						continue
+					}
+					isParam := false
+					for k := 0; k < sig.Params().Len(); k++ {
+						if sig.Params().At(k) == v {
+							isParam = true
+						}
+					}
+					if isParam || (sig.Recv() != nil && sig.Recv() == v) {
+						continue
+					}
 				}
 				if definedAs[exprString(a)] || call.Pos() < levelPos {
 					continue
